@@ -259,7 +259,7 @@ DispatchExactlyActiveInOrder ==
     pc \in Events =>
         /\ CalledIds \o queue = Active(pc, cycle)
         /\ queue = <<>> => IsDispatchOrder(CalledIds, cfg.ifs, pc, cycle, cfg.dcyc, {})
-DispatchLaw == DispatchLawFor(cfg.ifs, cfg.dcyc, 0..NCycles, {{}})
+DispatchLaw == pc = "Start" => DispatchLawFor(cfg.ifs, cfg.dcyc, 0..NCycles, {{}})   \* depends on cfg only
 \* "with the current cycle and node as arguments and reflected in the reactor's time state"
 ArgsMatchTimeState ==
     (pc \in Events /\ called # <<>>) =>
